@@ -402,6 +402,31 @@ class Folder:
             return UNKNOWN
         return UNKNOWN
 
+    def _inline_func(self, fn, fmod, args, kwargs):
+        body = [x for x in fn.body if not (isinstance(x, ast.Expr)
+                                           and isinstance(x.value,
+                                                          ast.Constant))]
+        if len(body) != 1 or not isinstance(body[0], ast.Return) or \
+                body[0].value is None:
+            return UNKNOWN
+        env = {}
+        params = [a.arg for a in fn.args.args]
+        if len(args) > len(params):
+            return UNKNOWN
+        for pn, a in zip(params, args):
+            env[pn] = a
+        rest = dict(kwargs)
+        for pn in params[len(args):]:
+            if pn in rest:
+                env[pn] = rest.pop(pn)
+            else:
+                return UNKNOWN
+        if fn.args.kwarg is not None:
+            env[fn.args.kwarg.arg] = rest
+        elif rest:
+            return UNKNOWN
+        return self._eval(body[0].value, env, fmod, None, None)
+
     def _comp(self, gens, i, env, mod, cls, ep, emit):
         if i == len(gens):
             emit(env)
@@ -457,8 +482,12 @@ class Folder:
             else:
                 args.append(ev(a))
         kwargs = {k.arg: ev(k.value) for k in e.keywords if k.arg}
-        if any(k.arg is None for k in e.keywords):
-            return UNKNOWN
+        for k in e.keywords:
+            if k.arg is None:
+                d = ev(k.value)
+                if not isinstance(d, dict):
+                    return UNKNOWN
+                kwargs.update(d)
         f = e.func
         # isinstance(x, T)
         if isinstance(f, ast.Name) and f.id == "isinstance" and len(
@@ -522,6 +551,11 @@ class Folder:
             elif type(base) in _SAFE_METHODS and f.attr in _SAFE_METHODS[
                     type(base)]:
                 return getattr(base, f.attr)(*args, **kwargs)
+        # single-return pure module functions of the repository (MemoryRange)
+        if isinstance(f, ast.Name) and f.id not in env:
+            b = self.world.lookup(mod, f.id)
+            if b is not None and b.kind == "func":
+                return self._inline_func(b.value, b.mod, args, kwargs)
         # repository constructors / enums called with a value
         tgt = ev(f) if not isinstance(f, ast.Name) or f.id not in env \
             else env[f.id]
